@@ -94,6 +94,8 @@ def shape(t, depth=2):
 def base_slice(t):
     """The slice a search/index call operates on, normalised."""
     t = strip_wrappers(t)
+    if t[0] == "phi" and len(t) > 4 and t[4][0] == "call" and name_is(t[4][2], "iter", "into_iter", "memchr_iter", "memchr2_iter", "memchr3_iter", "by_ref"):
+        t = strip_wrappers(t[4])
     while t[0] == "call" and name_is(t[2], "iter", "as_bytes", "as_ref", "deref", "as_slice", "by_ref", "into_iter", "as_str", "bytes"):
         t = strip_wrappers(t[3][0])
     return t
@@ -121,6 +123,8 @@ def search_origin(t):
         if inner[0] == "call" and name_is(inner[2], "memchr", "memchr2", "memchr3", "memrchr", "position", "rposition", "find", "rfind", "next", "iter_position"):
             if name_is(inner[2], "next"):
                 it = strip_wrappers(inner[3][0])
+                if it[0] == "phi" and len(it) > 4:
+                    it = strip_wrappers(it[4])  # an iterator carried round the loop is still the iterator it was created as
                 while it[0] == "call" and name_is(it[2], "into_iter", "by_ref"):
                     it = strip_wrappers(it[3][0])
                 if it[0] == "call" and name_is(it[2], "memchr_iter", "memchr2_iter", "memchr3_iter"):
